@@ -9,6 +9,14 @@ each queued `loop` runs.
 """
 import contextlib
 
+import os
+
+
+def corpus_only():
+    """VERIF_CORPUS_ONLY=1: run only the fixed corpus (no random families)"""
+    return bool(os.environ.get("VERIF_CORPUS_ONLY"))
+
+
 ST = {"O": "OVERDUE", "C": "COMPLETE", "X": "CORRUPT", "D": "DEAD", "B": "BADSEGNUM"}
 
 
@@ -926,6 +934,15 @@ def plan_fn(kind, nth, delay):
         return lambda m, i: "disconnect" if i == nth else None
     if kind == "hang-then-drop":
         return lambda m, i: "hang" if i >= nth else None
+    if kind == "error-read-once":
+        cnt = {"r": 0}
+
+        def plan(m, i):
+            if m != "read":
+                return None
+            cnt["r"] += 1
+            return "error" if cnt["r"] == nth else None
+        return plan
     return None
 
 
@@ -974,6 +991,7 @@ def guess_relation(sc, off):
 
 def _run_scenario(sc, data, out):
     import random
+    sc = dict(sc, server_plans=dict(sc["server_plans"]))      # "shN" keys are resolved below: do not touch the caller's dict
     from allmydata.immutable import upload
     from allmydata.util.consumer import MemoryConsumer
     from allmydata import uri
@@ -1012,9 +1030,21 @@ def _run_scenario(sc, data, out):
             if kind == "delete":
                 os.unlink(path)
                 state[(srv, shnum)] = "deleted"
+            elif kind == "truncate-header":
+                with open(path, "rb") as f:
+                    b = f.read()
+                with open(path, "wb") as f:
+                    f.write(b[:12 + 0x10])          # container header + 16 bytes: cut inside the offset table
+                state[(srv, shnum)] = "corrupt"
             else:
                 if corrupt_share(path, kind, random.Random(fseed)) is not None:
                     state[(srv, shnum)] = "corrupt"
+        # a plan keyed "shN" applies to the server holding share number N (placement-independent corpus cases)
+        for key in [x for x in sc["server_plans"] if x.startswith("sh")]:
+            holders = [srv for (srv, shnum) in sorted(state) if shnum == int(key[2:])]
+            plan = sc["server_plans"].pop(key)
+            if holders:
+                sc["server_plans"][str(holders[0])] = plan
         maxdelay = 0
         for s, (kind, nth, delay) in sc["server_plans"].items():
             s = int(s)
@@ -1398,3 +1428,43 @@ def replay_seg_script(params, toks):
         return [R.apply(t) for t in toks], R.result
     finally:
         R.close()
+
+
+# ----------------------------------------------------------------------------- fixed end-to-end corpus (seed-independent)
+
+def _sc(**kw):
+    sc = {"kind": "grid", "k": 1, "n": 2, "servers": 2, "segsize": 64, "size": 100, "grid_seed": 1, "policy": "fifo",
+          "dataseed": 1, "copies": [], "share_faults": [], "server_plans": {}, "reads": [[[0, 100]]], "crafted": []}
+    sc.update(kw)
+    return sc
+
+
+GRID_CORPUS = [
+    # seeded C03-a: the only remaining share is on a server whose DYHB answer comes after the finder's 10 s overdue timer
+    ("late-dyhb-needed-share", _sc(share_faults=[[0, "delete", 0]], server_plans={"1": ["late-dyhb", 1, 25]})),
+    # seeded C03-c: the server of the first chosen share fails exactly one share read (the first); k good shares elsewhere
+    ("one-read-error", _sc(size=300, server_plans={"sh0": ["error-read-once", 1, 1]}, reads=[[[0, 300]], [[10, 200]]])),
+    ("one-read-error-k2", _sc(k=2, n=3, servers=3, size=300, server_plans={"sh0": ["error-read-once", 1, 1]},
+                              reads=[[[0, 300]], [[10, 200]]])),
+    # seeded C46-a: every share-location query fails -> NoSharesError, not a hang
+    ("all-dyhb-fail", _sc(server_plans={"0": ["error-all", 1, 1], "1": ["error-all", 1, 1]})),
+    # seeded C46-a (second form): too few shares and the failing server's answer is the last event
+    ("late-dyhb-failure-too-few", _sc(k=2, n=2, servers=2, server_plans={"1": ["hang-then-drop", 1, 5]})),
+    # seeded C46-b: a read that fails with too few shares, then further reads on the same node
+    ("reread-after-not-enough", _sc(k=2, n=2, servers=2, share_faults=[[0, "delete", 0]],
+                                    reads=[[[0, 10]], [[0, 10]], [[5, 20], [50, 10]]])),
+    # fix ea42624: a share truncated inside its header (download looped forever); the other share is intact
+    ("truncated-header", _sc(share_faults=[[0, "truncate-header", 0]])),
+    ("truncated-header-k2", _sc(k=2, n=3, servers=3, share_faults=[[1, "truncate-header", 0]])),
+    # fix b6b8db9: intact file, reader guesses 17-byte segments (real 128), first read at 384; lifo delivers the
+    # answer for the block-hash position computed from the guessed tree before the UEB
+    ("wrong-guess-lifo", _sc(size=700, segsize=128, gmax=17, fresh_nodes=True, policy="lifo", reads=[[[384, 17]], [[373, 2]]])),
+    ("wrong-guess-random", _sc(size=700, segsize=128, gmax=17, fresh_nodes=True, policy="random", grid_seed=816538223,
+                               dataseed=268472504, reads=[[[384, 17]], [[373, 2]]])),
+    # seeded C46-c: guess (1000) smaller than the real segment size (2000), guessed segnum >= real segment count
+    ("bad-segnum-retry", _sc(size=3000, segsize=2000, gmax=1000, fresh_nodes=True, grid_seed=5, dataseed=6,
+                             reads=[[[2500, 50]], [[2999, 1], [2100, 700]], [[1500, 10]]])),
+    # fix 6853eb2: ciphertext hash check of segment 1 fails after block validation; later reads on the same node
+    ("decode-failure-then-reads", _sc(k=2, n=4, servers=5, size=200, crafted=[1],
+                                      reads=[[[0, 64]], [[64, 64]], [[64, 10]], [[0, 64]]])),
+]
